@@ -155,3 +155,5 @@ REGISTRY["C17"] = domain.c17
 REGISTRY["C14"] = domain.c14
 import store_engine
 REGISTRY["C09"] = store_engine.c09
+REGISTRY["C18"] = domain.c18
+REGISTRY["C19"] = domain.c19
